@@ -2,3 +2,5 @@ import HidVerif.Prophetic
 import HidVerif.Sphinx.Isa
 import HidVerif.Sphinx.Asm
 import HidVerif.Sphinx.VM
+import HidVerif.Hid.Ast
+import HidVerif.Hid.Machine
